@@ -407,6 +407,15 @@ type Printer struct {
 // idNum spells an unnamed value's number, with redundant leading zeros under Noise.LeadingZeros
 // (LLVM reads %01 and %1 as the same ID).
 func idNum(n int) string {
+	if noise.LeadingZeros && noise.OctalLookalikes {
+		// only numbers that stay numbers when read in base 8 (`010`, `0017`, `025`): a reader that takes the
+		// leading zero for an octal marker binds them to another value instead of failing on `09`
+		for m := n; m > 0; m /= 10 {
+			if m%10 > 7 {
+				return fmt.Sprint(n)
+			}
+		}
+	}
 	if noise.LeadingZeros {
 		switch n % 3 {
 		case 0:
@@ -554,7 +563,7 @@ const aliasMarker = ";;verif-alias-definitions;;"
 // TextNoisy renders the module with the given spelling noise.
 func (m *Module) TextNoisy(n Noise) string {
 	noise = n
-	vecAlias, vecAliasDefs, vecAliases, arrAliases = map[string]string{}, nil, 0, 0
+	vecAlias, vecAliasDefs, vecAliases, arrAliases, ptrAliases = map[string]string{}, nil, 0, 0, 0
 	defer func() { noise = Noise{} }()
 	p := &Printer{Explicit: n.Explicit}
 	body := p.Module(m)
